@@ -325,3 +325,69 @@ def returned_arrays(kernel):
         if isinstance(v, Arr) and not any(v is o for o in out):
             out.append(v)
     return out
+
+
+def flag_setting_paths(loop, name):
+    """A loop that only ever *sets* a flag: returns (c, paths) where `name` becomes the constant c (True / False / a
+    number) on exactly the listed paths of an iteration - each a list of conditions relative to the iteration, from the
+    conditional update at the end of the body and from the paths that leave through `break` - and keeps its value on
+    every other path.  None when the variable is changed in any other way.  After such a loop the flag is c iff it was c
+    before or some iteration took one of the paths ("any")."""
+    carried = getattr(loop, 'carried', {})
+    if name not in carried:
+        return None
+    phi, post = carried[name]
+    paths = []
+    consts = set()
+
+    def as_const(v):
+        if isinstance(v, tuple) and v and v[0] == 'const':
+            return Fraction(1 if v[1] is True else 0 if v[1] is False else v[1])
+        if isinstance(v, Rat) and v.is_const():
+            return v.const_value()
+        if isinstance(v, Rat):
+            a = _single_app(v)
+            if a is not None and a.name == 'bool' and isinstance(a.args[0], tuple) and a.args[0][0] == 'const':
+                return Fraction(1 if a.args[0][1] else 0)
+        return None
+
+    def same(v):
+        if isinstance(v, Rat) and v == phi:
+            return True
+        a = _single_app(v) if isinstance(v, Rat) else None
+        return a is not None and a.name == 'bool' and a.args[0] == ('truth', phi)
+
+    def walk(v, conds):
+        a = _single_app(v) if isinstance(v, Rat) else None
+        if a is not None and a.name == 'ite':
+            return walk(a.args[1], conds + [a.args[0]]) and walk(a.args[2], conds + [('not', a.args[0])])
+        if same(v):
+            return True
+        c = as_const(v)
+        if c is None:
+            return False
+        consts.add(c)
+        paths.append(list(conds))
+        return True
+    if not walk(post if isinstance(post, Rat) else Rat.atom(App('bool', [post])) if False else post, []):
+        return None
+    for g, envb, nb in getattr(loop, 'breaks', []):
+        v = envb.get(name)
+        if v is None or same(v):
+            continue
+        c = as_const(v)
+        if c is None:
+            return None
+        consts.add(c)
+        paths.append(list(g))
+    if len(consts) != 1:
+        return None if consts else (None, [])
+    return consts.pop(), paths
+
+
+def _single_app(r):
+    if isinstance(r, Rat) and r.d.is_const() and len(r.n.t) == 1:
+        (mm, c), = r.n.t.items()
+        if len(mm) == 1 and mm[0][1] == 1 and c == r.d.const_value() and isinstance(mm[0][0], App):
+            return mm[0][0]
+    return None
